@@ -120,6 +120,13 @@ def run(ctx):
         o = pt.origin(t["args"][2]) if len(t["args"]) > 2 else ("unknown",)
         ok = call_is(t, CV_WAIT_T) and any(x[0] == "arg" and x[1] == 2 for x in origin_walk(o))
         ctx.ob("C17.5", "%s|wait-bounded-by-timeout" % pt.id, "the timed wait's duration derives from the caller's timeout", ok, pt.loc(bb), origin_str(o))
+    # the time subtracted from the remaining budget after a wake-up is the time spent in *that* wait
+    nows = [bb for bb, t in pt.calls() if call_matches(t, r"^std::time::Instant::now$")]
+    els = [(bb, t) for bb, t in pt.calls() if call_matches(t, r"^std::time::Instant::elapsed$")]
+    if els:
+        okn = bool(nows) and all(pt.in_loop(b) for b in nows) and all(any(x[0] == "call" and x[3] in nows for x in origin_walk(pt.origin(t["args"][0]))) for bb, t in els)
+        ctx.ob("C17.5", "%s|elapsed-measured-per-wait" % pt.id, "the elapsed time charged against the timeout is measured from just before each wait (not accumulated twice)", okn,
+               pt.loc(els[0][0]), None if okn else "Instant::now() is taken outside the wait loop while elapsed() is subtracted on every wake-up: after two wake-ups the budget is exhausted early")
     srt = facts.fn("Server::recv_timeout")
     for bb in srt.call_blocks(lambda t: call_is(t, pt.id)):
         o = srt.origin(srt.term(bb)["args"][1])
